@@ -46,7 +46,7 @@ def run_property(prop, tier, repo, only=None, quiet=False, overrides=None, write
                 traceback.print_exc()
             continue
         floor = RULES[rid][2]
-        if len(got) < floor and not only:
+        if len(got) < floor and not only and not any(o.status == VIOL for o in got):
             errors.append('%s: %d obligations found, below the hand-confirmed floor %d (rule would pass vacuously)' % (rid, len(got), floor))
         flt = filters.get(rid)
         if flt is not None:
